@@ -27,7 +27,8 @@ Bytes(n) == [i \in 1..n |-> 64 + i]
 \* cls: what the statement says about the frame, by construction
 \*  "csm" | "ping" | "nop" (Pong) | "peer" (Release, Abort) | "empty" | "unk"
 \*  (unknown 7.xx: statement silent) | "msg" | "soft" (string option not UTF-8:
-\*  dispatched or refused) | "fatal"
+\*  dispatched or refused) | "softcsm" (a CSM with such a value under an
+\*  elective option: processed or refused) | "fatal"
 A(k, cls, m) == [k |-> k, cls |-> cls, m |-> m, b |-> Frame(m)]
 R(k, cls, b) == [k |-> k, cls |-> cls, m |-> Msg(0, << >>, << >>, << >>), b |-> b]
 Arch == <<
@@ -47,7 +48,8 @@ Arch == <<
   R("tkl9",        "fatal", <<9, 1>> \o Bytes(9)),              \* TKL 9, Len 0
   R("badopt",      "fatal", <<32, 1, 178, 97>>),                \* Uri-Path of length 2, one byte present
   A("ping-crit",   "fatal", Msg(PING, << >>, << <<1, << >> >> >>, << >>)),
-  A("req-badutf8", "soft",  Msg(1, << >>, << <<11, <<200>> >> >>, << >>))
+  A("req-badutf8", "soft",  Msg(1, << >>, << <<11, <<200>> >> >>, << >>)),
+  A("csm-o8bin",   "softcsm", Msg(CSM, << >>, << <<8, <<255>> >> >>, << >>))   \* elective option 8, not UTF-8
 >>
 NArch == Len(Arch)
 
@@ -97,7 +99,8 @@ RECURSIVE End(_)
 End(i) == IF i = 0 THEN 0 ELSE End(i - 1) + Len(Fr(i).b)
 K == Cardinality({i \in 1..NFr : End(i) <= pos})          \* complete frames
 Judged == IF done = "no" THEN K ELSE stopAt - 1              \* frames the statement decides
-CsmBefore(i) == \E j \in 1..(i - 1) : Fr(j).cls = "csm"
+IsCsm(j) == Fr(j).cls \in {"csm", "softcsm"}
+CsmBefore(i) == \E j \in 1..(i - 1) : IsCsm(j)
 Count(n, c) == Cardinality({i \in 1..n : Fr(i).cls = c})
 
 RECURSIVE ExpDisp(_, _)
@@ -112,9 +115,9 @@ ExpPongs(i, n) == IF i > n THEN << >>
 StopAllowed(i) ==
   /\ i \in 1..NFr /\ End(i - 1) < pos
   /\ \A j \in 1..(i - 1) : Fr(j).cls \notin {"fatal", "peer"}
-  /\ CASE done = "fatal" -> Fr(i).cls = "fatal" \/ (Fr(i).cls = "soft" /\ tk)
+  /\ CASE done = "fatal" -> Fr(i).cls = "fatal" \/ (Fr(i).cls \in {"soft", "softcsm"} /\ tk /\ (CsmBefore(i) \/ Fr(i).cls = "softcsm"))
        [] done = "peer"  -> Fr(i).cls = "peer"
-       [] done = "may"   -> tk /\ (Fr(i).cls = "unk" \/ (Fr(i).cls \notin {"csm", "peer", "fatal"} /\ ~CsmBefore(i)))
+       [] done = "may"   -> tk /\ (Fr(i).cls = "unk" \/ (Fr(i).cls \notin {"csm", "softcsm", "peer", "fatal"} /\ ~CsmBefore(i)))
        [] OTHER -> FALSE
 
 C15_DispatchIndependentOfChunking ==
@@ -123,8 +126,8 @@ C15_DispatchIndependentOfChunking ==
   /\ done # "no" => StopAllowed(stopAt)
 
 C15_NoDispatchBeforeCsm ==
-  /\ dispatched # << >> => \E j \in 1..K : Fr(j).cls = "csm"
-  /\ csmSeen <=> \E j \in 1..nproc : Fr(j).cls = "csm"
+  /\ dispatched # << >> => \E j \in 1..K : IsCsm(j)
+  /\ csmSeen <=> \E j \in 1..nproc : IsCsm(j)
 
 C15_FatalAborts ==
   /\ \A i \in 1..K : Fr(i).cls = "fatal" => done # "no" /\ stopAt <= i
